@@ -71,6 +71,16 @@ Definition ambiguous (t0 : N) (st : pool) : bool :=
   Nat.eqb (queue_count st) (N.to_nat (c_gqueue (p_cfg st))) &&
   forallb (fun a => t0 <=? beat_of a st) qa.
 
+(* price-heap normalisation, mirrored in harness/c41: when truncatePending may have processed
+   several offenders of equal length, the identity of the stale heap entries depends on Go's map
+   iteration order; both sides rebuild the heaps at the op boundary *)
+Definition norm_priced (st : pool) : pool :=
+  let c := p_cfg st in
+  let n_as := length (filter (fun a => Nat.leb (N.to_nat (c_aslots c)) (pending_len a st)) (c_accts c)) in
+  if negb (p_stales st =? 0)%Z && Nat.leb 2 n_as &&
+     Nat.ltb (N.to_nat (c_gslots c)) (pending_count st + length (c_accts c))
+  then priced_reheap st else st.
+
 Inductive dop := DAdd (txs : list tx) | DReset (b : block) | DTip (tip : N).
 
 Definition dec_op (txs : list tx) (blocks : list block) (s : sx) : option dop :=
@@ -94,7 +104,7 @@ Fixpoint run_ops (blocks : list block) (ops : list dop) (head : block) (st : poo
         end in
       if ambiguous t0 st1 then [SL [SI 99]]
       else
-        let st2 := canon_beats t0 st1 in
+        let st2 := norm_priced (canon_beats t0 st1) in
         SL [SL (map sn errs); dump st2] :: run_ops blocks rest head1 st2
   end.
 
@@ -104,7 +114,7 @@ Definition C41_run (c : sx) : sx :=
       match sx_list_of sx_N conf, sx_list_of dec_tx stxs with
       | Some [bump; aslots; gslots; aqueue; gqueue; naccts; gastip], Some txs =>
           match sx_list_of (dec_block txs) sblocks with
-          | Some (genesis :: _ as blocks) =>
+          | Some ((genesis :: _) as blocks) =>
               match sx_list_of (dec_op txs blocks) sops with
               | Some ops =>
                   let c := mkCfg bump aslots gslots aqueue gqueue (map N.of_nat (seq 0 (N.to_nat naccts))) in
